@@ -270,6 +270,15 @@ func init() {
 		if itf.T == nil {
 			panic(unsupported("json.Marshal(nil)"))
 		}
+		if p.jsonText {
+			p.stubsHit["encoding/json TEXT layer (encoder/parser written after encoding/json's rules; ASCII, no floats)"] = true
+			indent, prefix, ind := false, "", ""
+			if len(a) == 3 {
+				indent, prefix, ind = true, concreteString(a[1], "MarshalIndent prefix"), concreteString(a[2], "MarshalIndent indent")
+			}
+			out := p.jsonMarshalText(itf.V, itf.T, indent, prefix, ind)
+			return Tuple{Slice{A: out}, Iface{}}
+		}
 		p.stubsHit["encoding/json (field/tag contract model over the real struct types; no text layer)"] = true
 		blob := &jsonBlob{v: deepCopy(itf.V), t: itf.T}
 		return Tuple{Slice{A: []Value{&Native{V: blob}}}, Iface{}}
@@ -285,7 +294,15 @@ func init() {
 			}
 		}
 		if blob == nil {
-			panic(unsupported("json.Unmarshal of bytes that were not produced by json.Marshal (the JSON text layer is not modelled)"))
+			// real JSON text
+			itf := a[1].(Iface)
+			ptr, ok := itf.V.(*Value)
+			pt, ok2 := itf.T.Underlying().(*types.Pointer)
+			if !ok || !ok2 || ptr == nil {
+				return Iface{T: nativeErrorType, V: &errVal{msg: "json: Unmarshal(non-pointer)"}}
+			}
+			p.stubsHit["encoding/json TEXT layer (encoder/parser written after encoding/json's rules; ASCII, no floats)"] = true
+			return p.jsonUnmarshalText(sl.A, ptr, pt.Elem())
 		}
 		itf := a[1].(Iface)
 		ptr, ok := itf.V.(*Value)
